@@ -30,6 +30,10 @@ COMPONENTS = {
              "internal/proto", "pion/stun"], ["TURN server (scripted: per-method reactions chosen by the plan)", "peers (none: relayed data is injected by the scripted server)"]),
     "frame": (["internal/proto STUNConn (stream framing)", "internal/client TCPAllocation.BindConnection / TCPConn read path", "pion/stun"],
               ["byte stream source (scripted segmentation, short reads, cuts)", "TURN client behind BindConnection (no-op fake)"]),
+    "xl": (["turn.Server with several listeners (UDP and TCP on one address, optionally a second UDP port): server.go NewServer / readLoop / readListener, "
+            "internal/server, internal/allocation (one manager per listener)", "internal/proto", "pion/stun"],
+           ["TURN clients (scripted, sharing their ip:port across listeners)", "peers (scripted)", "relay address generator (simnet-backed, one per listener, distinct relay IPs)",
+            "reference model (allocated / relay / permitted IPs per endpoint) instead of the full monitor"]),
     "gen": (["RelayAddressGeneratorStatic / PortRange / None (relay_address_generator_*.go)"], ["vnet/transport.Net (SimTransport over simnet)"]),
     "cred": (["lt_cred.go (GenerateLongTermCredentials, GenerateLongTermTURNRESTCredentials, LongTermTURNRESTAuthHandler, NewLongTermAuthHandler)",
               "internal/server authentication path, turn.Client (long-lived handler runs)"], SRV_STUB[:1]),
